@@ -55,8 +55,45 @@ impl ReadOutcome {
     }
 }
 
+/// plain TCP or TLS over TCP, so that every live check can also run against
+/// the HTTPS accept path
+pub enum Stream {
+    Plain(TcpStream),
+    Tls(Box<tokio_rustls::client::TlsStream<TcpStream>>),
+}
+
+impl tokio::io::AsyncRead for Stream {
+    fn poll_read(self: std::pin::Pin<&mut Self>, cx: &mut std::task::Context<'_>, buf: &mut tokio::io::ReadBuf<'_>) -> std::task::Poll<std::io::Result<()>> {
+        match self.get_mut() {
+            Stream::Plain(s) => std::pin::Pin::new(s).poll_read(cx, buf),
+            Stream::Tls(s) => std::pin::Pin::new(s.as_mut()).poll_read(cx, buf),
+        }
+    }
+}
+
+impl tokio::io::AsyncWrite for Stream {
+    fn poll_write(self: std::pin::Pin<&mut Self>, cx: &mut std::task::Context<'_>, data: &[u8]) -> std::task::Poll<std::io::Result<usize>> {
+        match self.get_mut() {
+            Stream::Plain(s) => std::pin::Pin::new(s).poll_write(cx, data),
+            Stream::Tls(s) => std::pin::Pin::new(s.as_mut()).poll_write(cx, data),
+        }
+    }
+    fn poll_flush(self: std::pin::Pin<&mut Self>, cx: &mut std::task::Context<'_>) -> std::task::Poll<std::io::Result<()>> {
+        match self.get_mut() {
+            Stream::Plain(s) => std::pin::Pin::new(s).poll_flush(cx),
+            Stream::Tls(s) => std::pin::Pin::new(s.as_mut()).poll_flush(cx),
+        }
+    }
+    fn poll_shutdown(self: std::pin::Pin<&mut Self>, cx: &mut std::task::Context<'_>) -> std::task::Poll<std::io::Result<()>> {
+        match self.get_mut() {
+            Stream::Plain(s) => std::pin::Pin::new(s).poll_shutdown(cx),
+            Stream::Tls(s) => std::pin::Pin::new(s.as_mut()).poll_shutdown(cx),
+        }
+    }
+}
+
 pub struct Conn {
-    pub stream: TcpStream,
+    pub stream: Stream,
     pub buf: Vec<u8>,
     pub local: SocketAddr,
 }
@@ -211,7 +248,28 @@ impl Conn {
         let stream = TcpStream::connect(addr).await?;
         stream.set_nodelay(true)?;
         let local = stream.local_addr()?;
-        Ok(Conn { stream, buf: vec![], local })
+        Ok(Conn { stream: Stream::Plain(stream), buf: vec![], local })
+    }
+
+    /// connect and complete a TLS handshake (any server certificate is accepted)
+    pub async fn connect_tls(addr: SocketAddr) -> std::io::Result<Conn> {
+        let tcp = TcpStream::connect(addr).await?;
+        tcp.set_nodelay(true)?;
+        let local = tcp.local_addr()?;
+        // a server that never answers the handshake must not hang the client
+        let tls = match tokio::time::timeout(Duration::from_secs(10), crate::tls::handshake(&crate::tls::connector(), tcp)).await {
+            Ok(r) => r?,
+            Err(_) => return Err(std::io::Error::new(std::io::ErrorKind::TimedOut, "TLS handshake not answered within 10 s")),
+        };
+        Ok(Conn { stream: Stream::Tls(Box::new(tls)), buf: vec![], local })
+    }
+
+    pub async fn connect_with(addr: SocketAddr, tls: bool) -> std::io::Result<Conn> {
+        if tls {
+            Conn::connect_tls(addr).await
+        } else {
+            Conn::connect(addr).await
+        }
     }
 
     pub async fn send(&mut self, bytes: &[u8]) -> std::io::Result<()> {
@@ -264,7 +322,14 @@ impl Conn {
 
     /// close with RST
     pub fn abort(self) {
-        let _ = self.stream.set_linger(Some(Duration::from_secs(0)));
+        match &self.stream {
+            Stream::Plain(s) => {
+                let _ = s.set_linger(Some(Duration::from_secs(0)));
+            }
+            Stream::Tls(s) => {
+                let _ = s.get_ref().0.set_linger(Some(Duration::from_secs(0)));
+            }
+        }
         drop(self.stream);
     }
 
@@ -440,7 +505,11 @@ pub fn chunked_body(body: &[u8], sizes: &[usize], ext: bool, trailer: bool) -> V
 
 /// one-shot request on a fresh connection
 pub async fn oneshot(addr: SocketAddr, req: &[u8], head: bool, timeout: Duration) -> Result<RawResp, String> {
-    let mut c = Conn::connect(addr).await.map_err(|e| format!("connect: {}", e))?;
+    oneshot_with(addr, false, req, head, timeout).await
+}
+
+pub async fn oneshot_with(addr: SocketAddr, tls: bool, req: &[u8], head: bool, timeout: Duration) -> Result<RawResp, String> {
+    let mut c = Conn::connect_with(addr, tls).await.map_err(|e| format!("connect: {}", e))?;
     c.send(req).await.map_err(|e| format!("send: {}", e))?;
     c.read_response(head, timeout).await.resp()
 }
